@@ -251,6 +251,7 @@ pub fn gen_ws(ch: &mut Chooser, cx: &mut CaseCtx, o: &WsGenOpts) -> WsCase {
         let nops = ch.range(1, 4);
         let mut ops: Vec<FileOp> = Vec::new();
         let mut specs: Vec<FilePatchSpec> = Vec::new();
+        let mut deferred: Option<(usize, usize, String, FileOp, FilePatchSpec)> = None;
         let mut next = cur.clone();
         let failing_here = fail_idx == Some(pi) || fail_idx2 == Some(pi);
         // which ops of a failing patch fail: decided per op below (at least one forced)
@@ -782,8 +783,14 @@ pub fn gen_ws(ch: &mut Chooser, cx: &mut CaseCtx, o: &WsGenOpts) -> WsCase {
                                         l.text = B::new(SENTINEL);
                                     }
                                 }
-                                ops.push(FileOp { kind: "modify".into(), old_path: path.clone(), new_path: path.clone(), target: path.clone(), hunks: fp2.hunks.clone(), failing_hunks: (0..fp2.hunks.len()).collect(), fail_reason: Some("no-match".into()) });
-                                specs.push(fp2);
+                                let op2 = FileOp { kind: "modify".into(), old_path: path.clone(), new_path: path.clone(), target: path.clone(), hunks: fp2.hunks.clone(), failing_hunks: (0..fp2.hunks.len()).collect(), fail_reason: Some("no-match".into()) };
+                                if deferred.is_none() && ch.chance(1, 2) {
+                                    // not next to the first entry: behind the entries for other files of this patch
+                                    deferred = Some((ops.len(), specs.len(), path.clone(), op2, fp2));
+                                } else {
+                                    ops.push(op2);
+                                    specs.push(fp2);
+                                }
                                 feat.push("two-failing-entries-for-one-file".into());
                             }
                         }
@@ -837,6 +844,19 @@ pub fn gen_ws(ch: &mut Chooser, cx: &mut CaseCtx, o: &WsGenOpts) -> WsCase {
         // render; write the broken hunks into the text (specs carry their own copy of hunks)
         for (sp, op) in specs.iter_mut().zip(ops.iter()) {
             sp.hunks = op.hunks.clone();
+        }
+        if let Some((pos, spos, path, op2, fp2)) = deferred.take() {
+            let later_use = ops[pos..].iter().any(|o| o.target == path || o.old_path == path || o.new_path == path);
+            if later_use || pos == ops.len() {
+                ops.insert(pos, op2);
+                specs.insert(spos, fp2);
+            } else {
+                if ops[pos..].iter().any(|o| !o.failing_hunks.is_empty()) {
+                    feat.push("two-failing-entries-for-one-file-with-a-failing-file-between".into());
+                }
+                ops.push(op2);
+                specs.push(fp2);
+            }
         }
         let text = render_patch(&specs);
         let mut line = String::new();
